@@ -54,6 +54,18 @@ def run(res: C.Result):
             a, b, c_ = (r2.choice([-0.02, 0.0, 0.01, 0.03]) for _ in range(3))
             p["stress"] = [[0.02, a, b], [a, -0.01, c_], [b, c_, 0.015]]
         cases.append({"program": p, "workdir": str(res.workdir)})
+    # designated: a displacement move that groups atoms in pairs next to an exchange move that deletes single atoms (what the live run remembers about
+    # eligible groups must be what a freshly rebuilt simulation would compute)
+    for k in range(4 if quick else 40):
+        p = progs.gen_program(rng, 4 + 6 * k, ensembles=("gc",), multi_insert=False)
+        n_ = p["natoms"]
+        for lf in p["leaves"]:
+            lf["labels"] = [i // 2 for i in range(n_)] if lf["kind"] == "disp" else list(range(n_))
+            if lf["kind"] == "exch":
+                lf["bias"] = 0.3
+        p.update(criteria="shipped", vetoes=[], steps=8 if quick else 14, calc="caching", max_attempts=2, fixed=[], T=3000.0, mu=p.get("mu", -0.1))
+        p["exchange"] = {"symbols": ["H"], "positions": [[0.0, 0.0, 0.0]]}
+        cases.append({"program": p, "workdir": str(res.workdir)})
     for drv in ("fbmc", "afbmc"):
         cases.append({"driver": drv, "seed": 5, "program": {"steps": 3}, "workdir": str(res.workdir)})
     res.workdir.mkdir(parents=True, exist_ok=True)
@@ -87,6 +99,9 @@ def run(res: C.Result):
                 continue
             if rec["step_count_loaded"] != kk:
                 res.fail(f"restart:{drv}:step_count", f"file of step {kk} loads with step_count={rec['step_count_loaded']}", {"input": c, "k": kk})
+            if rec.get("dict_reusable") is False:
+                res.fail(f"restart:{drv}:loaded-dictionary-modified", f"{drv}: the dictionary loaded from the file of step {kk} was changed by rebuilding and running a simulation from it: a second "
+                         f"simulation rebuilt from the same dictionary does not start from the saved state", {"input": c, "k": kk})
             if len(rec["got"]) != len(ref) - kk:
                 res.fail(f"restart:{drv}:steps-performed", f"{drv}: resumed from the file of step {kk} and asked for the remaining {len(ref) - kk} steps, the simulation performed {len(rec['got'])}",
                          {"input": c, "k": kk, "observed": {"steps_performed": len(rec["got"]), "asked": len(ref) - kk}})
